@@ -201,6 +201,36 @@ def norm(node: ast.AST | str) -> str:
     return " ".join(ast.unparse(node).split())
 
 
+class _PlainLocalAnnotations(ast.NodeTransformer):
+    """`x: T = v` inside a function body is the assignment `x = v` (the annotation is kept in `_ann` for the type
+    environment): a rule that looks for the definition of a local must not depend on whether it carries an annotation.
+    Class-level annotated assignments (fields) and `self.x: T = v` are left alone."""
+
+    def __init__(self):
+        self.depth = 0
+
+    def visit_FunctionDef(self, node):
+        self.depth += 1
+        self.generic_visit(node)
+        self.depth -= 1
+        return node
+
+    visit_AsyncFunctionDef = visit_FunctionDef
+
+    def visit_ClassDef(self, node):
+        d, self.depth = self.depth, 0
+        self.generic_visit(node)
+        self.depth = d
+        return node
+
+    def visit_AnnAssign(self, node):
+        if self.depth and node.value is not None and isinstance(node.target, ast.Name):
+            new = ast.copy_location(ast.Assign(targets=[node.target], value=node.value, type_comment=None), node)
+            new._ann = node.annotation
+            return new
+        return node
+
+
 @dataclass
 class Module:
     name: str
@@ -309,6 +339,7 @@ class Program:
             if any(isinstance(x, ast.Match) for x in ast.walk(tree)):
                 tree = _DesugarMatch().visit(tree)
                 ast.fix_missing_locations(tree)
+            tree = _PlainLocalAnnotations().visit(tree)
             if ".user_actions" in name or ".actions" in name:
                 tree = _SplitConditionalEffects().visit(tree)
                 ast.fix_missing_locations(tree)
@@ -595,6 +626,8 @@ class Program:
                     t = self.ann_type(f.module, n.annotation)
                     if t:
                         env[n.target.id] = t
+                elif isinstance(n, ast.Assign) and getattr(n, "_ann", None) is not None and self.ann_type(f.module, n._ann):
+                    env[n.targets[0].id] = self.ann_type(f.module, n._ann)
                 elif isinstance(n, ast.Assign) and len(n.targets) == 1:
                     if isinstance(n.targets[0], ast.Name):
                         t = self.type_of(n.value, env, f)
